@@ -63,6 +63,7 @@ vars == <<rs, rep, clock, ev, pending, bound, incl, mode, seg, executed, prog, i
 MaxPrio == 10
 Unset == <<[k |-> "unset", a |-> 0, p |-> 0]>>
 NoTs == -1
+AnyTs == -2      \* a notification whose timestamp the statement does not constrain (and which is racy in the implementation)
 Ids == 1..Len(ev)
 Key(E, e) == [t |-> E[e].t, p |-> E[e].p, id |-> e]
 MinOf(E, P) == CHOOSE a \in P : \A b \in P : b = a \/ Before(Key(E, a), Key(E, b))
@@ -313,7 +314,7 @@ Pause ==
 EndReplicationEffect ==
     /\ rs' = "ENDED" /\ rep' = "ENDED" /\ pending' = {}
     /\ clock' = IF clock < EndT THEN EndT ELSE clock
-    /\ due' = <<[ty |-> "END_REPLICATION", ts |-> clock']>>
+    /\ due' = <<[ty |-> "END_REPLICATION", ts |-> AnyTs]>>    \* (stamped by the run thread while the caller moves the clock: old or new time)
     /\ premature' = TRUE
     /\ op' = [a |-> "EndReplication", arg |-> 0, res |-> "ok"]
     /\ UNCHANGED <<ev, bound, incl, mode, seg, executed, prog, initOps, ann, notif, nrep, strat>>
